@@ -374,6 +374,11 @@ def run(ctx):
            "and the residues are adjacent; otherwise it must be written to struct_conn", fc.lineno)
 
     # ---------------- R6 integer down-cast bounds --------------------------------
+    downcast_bounds(ctx, "R6.downcast-bounds")
+
+
+def downcast_bounds(ctx, rule):
+    """both bounds of every integer down-cast ladder in compress._to_smallest_integer_type"""
     cz = ctx.src(COMPRESS)
     ts = cz.func("_to_smallest_integer_type")
     aparam2 = param_names(ts)[0]
@@ -423,7 +428,7 @@ def run(ctx):
         facts = bounds_checked(tests[0].test) if tests else set()
         upper = bool({("upper", "max"), ("upper", "all")} & facts)
         lower = bool({("lower", "min"), ("lower", "all")} & facts)
-        ctx.ob("R6.downcast-bounds", COMPRESS, "_to_smallest_integer_type",
+        ctx.ob(rule, COMPRESS, "_to_smallest_integer_type",
                f"{'signed' if signed else 'unsigned'} ladder: {sorted(facts)}",
                upper and (lower or not signed),
                "a signed target type must hold both the minimum and the maximum of the array (and an "
@@ -437,7 +442,7 @@ def run(ctx):
                     if isinstance(c, ast.Compare) and isinstance(c.ops[0], ast.GtE) and isinstance(c.comparators[0], ast.Constant) \
                             and c.comparators[0].value == 0 and role(c.left) == "min":
                         ok = True
-            ctx.ob("R6.downcast-bounds", COMPRESS, "_to_smallest_integer_type", "unsigned ladder only for non-negative arrays",
+            ctx.ob(rule, COMPRESS, "_to_smallest_integer_type", "unsigned ladder only for non-negative arrays",
                    ok, "unsigned types may only be tried when the minimum of the array is >= 0", loop.lineno)
 
 MUTANTS = [
